@@ -43,6 +43,12 @@ def tuple_family(rng, quick):
         {"a": [(1, 0, F(2, 3))], "b": [(1, 0, F(3, 2))]},
         {"a": [(1, 0, 1)], "b": [(1, 0, 2)]},
         {"a": [(1, 0, 12)], "b": [(1, 0, 18)], "c": [(1, 0, F(2, 3))]},
+        {"a": [(1, 0, -1)], "b": [(1, 0, 2)]},
+        {"a": [(1, 0, F(-1, 2))], "b": [(1, 0, 2)]},
+        {"a": [(1, 0, -2)], "b": [(1, 0, -3)], "c": [(1, 0, 6)]},
+        {"a": [(1, 0, F(-3, 4))], "b": [(1, 0, 2)], "c": [(1, 0, -3)]},
+        {"a": [(1, 0, -4)], "b": [(1, 0, 2)], "c": [(1, 0, -8)]},
+        {"a": [(1, 0, 3)], "b": [(1, 0, -1)], "c": [(1, 0, -3)]},
     ]
     bases = [2, 3, 4, 8, 9, F(1, 2), F(1, 3), -1, -2, 6, F(2, 3), 1]
     for _ in range(6 if quick else 80):
@@ -130,10 +136,18 @@ def collect(run, quick, rng, N):
     for name, text, goals in PROGRAMS:
         jobs.append({"kind": "invariants", "id": "prog-" + name, "text": text, "goals": goals, "N": 6, "timeout": 200})
         subjects["prog-" + name] = {"text": text, "goal_names": goals}
-    for i, fam in enumerate(tuple_family(rng, quick)):
+    fams = tuple_family(rng, quick)
+    for i, fam in enumerate(fams):
         jobs.append({"kind": "invariants", "id": f"tuple-{i}", "closed_forms": {g: cf_text(t) for g, t in fam.items()},
                      "N": 6, "timeout": 200})
         subjects[f"tuple-{i}"] = {"fam": fam}
+    # the same analyses later in a process: k generated names were consumed before (C20 meets C06)
+    for i, fam in enumerate(fams[:8] if quick else fams[:30]):
+        for burn in ((9, 99) if quick else (8, 9, 98, 99, 999)):
+            sid = f"tuple-{i}-after{burn}"
+            jobs.append({"kind": "invariants", "id": sid, "closed_forms": {g: cf_text(t) for g, t in fam.items()},
+                         "N": 6, "timeout": 200, "burn_names": burn})
+            subjects[sid] = {"fam": fam}
     # parsed programs (abstract syntax) for the program subjects come from an analyze job
     ajobs = [{"kind": "analyze", "id": "prog-" + name, "text": text, "goals": [], "points": [{}], "N": 0, "want": ["parsed"],
               "timeout": 100} for name, text, _ in PROGRAMS]
